@@ -147,7 +147,7 @@ func runGennames() (map[string]string, string) {
 	out := filepath.Join(mon.VerifDir, "bin", fmt.Sprintf("gennames-%d.go", os.Getpid()))
 	defer os.Remove(out)
 	cmd := exec.Command("go", "run", "./gennames", "-standard", "-novendor", "-path", "./...", "-output", out, "-name", "PackageNames")
-	cmd.Dir = "/repo"
+	cmd.Dir = repoDir()
 	cmd.Env = append(os.Environ(), "GOFLAGS=-mod=mod", "GOPROXY=off", "GOSUMDB=off", "GOTOOLCHAIN=local")
 	if b, err := cmd.CombinedOutput(); err != nil {
 		return nil, fmt.Sprintf("gennames failed: %v: %s", err, mon.Trunc(string(b), 600))
